@@ -594,7 +594,7 @@ func runC13(ctx *vh.Ctx) error {
 		}
 		return c13One(ctx, &c)
 	}
-	n := ctx.N(600, 20000)
+	n := ctx.N(3000, 20000)
 	for i := 0; i < n && ctx.TimeLeft(); i++ {
 		c := c13Gen(ctx.Rng)
 		if err := c13One(ctx, c); err != nil {
